@@ -16,7 +16,7 @@ CHECKS = {
     ),
     "C02": dict(
         level="exploration",
-        text="Generated search (Hypothesis) over the scheme space of the statement, built from harness megacomplexes with closed-form columns; the penalty vector captured exactly as scipy receives it is compared at x0 and two further points with an independent reference objective written from the statement (per-index reduced, scaled, weighted least squares; stacked problems for linked groups; equal-area penalties), plus metamorphic independence of dataset groups. Exploration: counts, feature histogram and samples are reported; nothing is proved.",
+        text="Generated search (Hypothesis) over the scheme space of the statement, built from harness megacomplexes with closed-form columns; the penalty vector captured exactly as scipy receives it is compared at x0 and two further points with an independent reference objective written from the statement (per-index reduced, scaled, weighted least squares; stacked problems for linked groups; equal-area penalties), plus metamorphic independence of dataset groups, linked groups with clp_link_tolerance > 0 aligned by the C09 reference model, and a second optimizer on the same scheme object. Exploration: counts, feature histogram and samples are reported; nothing is proved.",
         note="Trusted: the reference objective (vlib/oracle/refobjective.py), numpy lstsq, exhaustive active-set NNLS. Cases whose semantics the statement leaves open are discarded and counted.",
         technique="property-based testing against a reference model + metamorphic relation (Hypothesis)",
         ref="DESIGN.md section 4 C02",
@@ -37,7 +37,7 @@ CHECKS = {
     ),
     "C10": dict(
         level="exploration",
-        text="Hypothesis rule-based state machine over the captured objective (evaluate new / earlier / raising points, fresh optimizer, change numba thread count) with a history invariant (value at x is a function of x only) and deep snapshots of the caller's parameters, model and data after every step; optimize() twice per method; a fresh-process matrix over NUMBA_NUM_THREADS. Thread schedules are only sampled - the harness cannot own numba's scheduler (stated limit).",
+        text="Hypothesis rule-based state machine over the captured objective (evaluate new / earlier / raising points, fresh optimizer, change numba thread count) with a history invariant (value at x is a function of x only) and deep snapshots of the caller's parameters, model and data after every step; optimize() twice per method; dataset matrices recomputed under several numba thread counts, a fresh-process matrix over NUMBA_NUM_THREADS. Thread schedules are only sampled - the harness cannot own numba's scheduler (stated limit).",
         note="Trusted: snapshot covers parameter dicts, model dict, data/weight/coordinate bytes. Bit-equality is counted; violation threshold 1e-12 relative.",
         technique="stateful property-based testing (Hypothesis RuleBasedStateMachine) + differential runs across processes/thread counts",
         ref="DESIGN.md section 4 C10",
@@ -58,7 +58,7 @@ CHECKS = {
     ),
     "C08": dict(
         level="exploration",
-        text="Exhaustive enumeration (unit level) of every axis that is a subset (size 1-5) of a 7-point dyadic grid x every ordered bound pair from {-inf, below, on a point, quarter point, exact midpoint, above, +inf} x 1-2 intervals x item kind against an interval reference model written from the statement (inside subset-of S subset-of inside+nearest-range, monotone, only = complement of zero, union for lists), plus Hypothesis-generated schemes through optimize() decoding the affected sets from reported clps / weights / penalties / clp counts, and the dataset-weight-wins-with-warning rule.",
+        text="Exhaustive enumeration (unit level) of every axis that is a subset (size 1-5) of a 7-point dyadic grid x every ordered bound pair from {-inf, below, on a point, quarter point, exact midpoint, above, +inf} x 1-2 intervals x item kind against an interval reference model written from the statement (inside subset-of S subset-of inside+nearest-range, monotone, only = complement of zero, union for lists), plus Hypothesis-generated schemes through optimize() decoding the affected sets from reported clps / weights / penalties / clp counts, the dataset-weight-wins-with-warning rule, 2-3 relations with their own intervals, index-dependent and index-independent matrices, and a differential locality check (the same scheme with and without one item must agree outside the item's reach).",
         note="Float-fragile decisions (bound within 1e-9 of a point, nearest-point ties) are left open in the reference (set of admissible outcomes). Exhaustive only over the stated grid.",
         technique="exhaustive enumeration + property-based testing against an interval reference model",
         ref="DESIGN.md section 4 C08",
@@ -79,7 +79,7 @@ CHECKS = {
     ),
     "C11": dict(
         level="exploration",
-        text="Hypothesis-generated parameter sets (flat/nested/numeric labels; free, fixed, bounded, one-sided, non-negative, expression parameters; values on/near bounds, exactly 1 for non-negative, 1e-12..1e12): round trip through the optimiser's vector, what least_squares is handed (stub substituted for the name used by the optimizer), and real fits with all three methods: every history record and the result respect bounds / fixed / expressions, and Jacobian columns, covariance and standard errors refer to the free-label order (finite-difference derivative of the independently captured objective).",
+        text="Hypothesis-generated parameter sets (flat/nested/numeric labels; free, fixed, bounded, one-sided, non-negative, expression parameters; values on/near bounds, exactly 1 for non-negative, 1e-12..1e12): round trip through the optimiser's vector, what least_squares is handed (stub substituted for the name used by the optimizer), and real fits with all three methods: every history record and the result respect bounds / fixed / expressions, and Jacobian columns, covariance and standard errors refer to the free-label order (finite-difference derivative of the independently captured objective); histories on ONE Parameters object (observe, edit vary / bounds / expression in place, observe or fit again); optimisations aborted by an injected fault still return parameters within bounds.",
         note="Round trip rtol 1e-9; Jacobian column match by cosine > 0.99 against central differences; either documented branch of the log-space standard error accepted.",
         technique="property-based round-trip and differential testing (Hypothesis)",
         ref="DESIGN.md section 4 C11",
@@ -93,21 +93,21 @@ CHECKS = {
     ),
     "C16": dict(
         level="exploration",
-        text="Hypothesis-generated valid parameter sets (numeric-looking, boolean-looking, nested labels; all-empty / mixed option columns; NaN errors, infinite bounds, expressions incl. numeric literals) saved and loaded through csv, tsv, xlsx and ods for 3 cycles and compared with an own field-by-field comparator; yml / dict / list specifications against programmatic construction; atheris through hypothesis.fuzz_one_input in the thorough tier.",
+        text="Hypothesis-generated valid parameter sets (numeric-looking, boolean-looking, nested labels; all-empty / mixed option columns; NaN errors, infinite bounds, expressions incl. numeric literals) saved and loaded through csv, tsv, xlsx and ods for 3 cycles and compared with an own field-by-field comparator; yml / dict / list specifications against programmatic construction; save / load / resave histories on paths that already hold a file; atheris through hypothesis.fuzz_one_input in the thorough tier.",
         note="Floats after text I/O compared to k*1e-13 relative after k cycles. Labels equal to pandas NA tokens are the known finding D16e.",
         technique="property-based round-trip testing (Hypothesis) + coverage-guided fuzzing of the same strategies (atheris)",
         ref="DESIGN.md section 4 C16",
     ),
     "C17": dict(
         level="exploration",
-        text="Hypothesis model grammar over the built-in item types (tuple-keyed K-matrices, interval forms, nested labels, several groups): yml round trip of the specification AND of the objective; enumerated SavingOptions x target kinds for results (loaded in place and after moving the folder and changing cwd); netCDF datasets bit-equal; ascii time-/wavelength-explicit files for non-square data in both dimension orders.",
+        text="Hypothesis model grammar over the built-in item types (tuple-keyed K-matrices, interval forms, nested labels, several groups): yml round trip of the specification AND of the objective; enumerated SavingOptions x target kinds for results (loaded in place and after moving the folder and changing cwd); netCDF datasets bit-equal; ascii time-/wavelength-explicit files for non-square data in both dimension orders; histories of save / load / continue / move / remove / chdir in which loaded and continued results are saved again.",
         note="YAML statistics exact, netCDF byte-exact, text floats 1e-13 relative, ascii values 1e-10 (written %.10e).",
         technique="property-based round-trip testing (Hypothesis) + exhaustive option grid",
         ref="DESIGN.md section 4 C17",
     ),
     "C18": dict(
         level="exploration",
-        text="Exhaustive matrix of every save_* function x every registered format (+ unknown format, + a harness plugin that writes half a file and raises) x target state x allow_overwrite with a file-tree snapshot oracle (bytes and mtimes); exhaustive short sequences and Hypothesis state machines over a real Project (optimize with prefix-sharing result names, import/generate with all flags, deletion of old runs) against a run-number model written from the statement.",
+        text="Exhaustive matrix of every save_* function x every registered format (+ unknown format, + a harness plugin that writes half a file and raises) x target state x allow_overwrite with a file-tree snapshot oracle (bytes and mtimes); exhaustive short sequences and Hypothesis state machines over a real Project (optimize with prefix-sharing result names, import/generate with all flags, deletion of old runs) against a run-number model written from the statement, including saves that fail midway and up to three live Project handles on one folder used alternately.",
         note="Result names ending in _run_dddd are inherently ambiguous and excluded. Exhaustive over the stated matrix and over sequences of length 4 (5 in thorough) only.",
         technique="exhaustive enumeration + stateful property-based testing against a reference model",
         ref="DESIGN.md section 4 C18",
@@ -121,7 +121,7 @@ CHECKS = {
     ),
     "C20": dict(
         level="exploration",
-        text="Hypothesis model grammar over all built-in item types with matching parameters; an independent table of 31 reference positions drives the mutations (each reference renamed, each definition deleted, each parameter removed, unique megacomplexes duplicated, exclusive ones combined): validate / valid / Scheme.validate never raise, every mutation is reported naming the missing label, the unmutated model is valid, fills and evaluates without lookup errors, generated parameters validate. atheris on the grammar in the thorough tier.",
+        text="Hypothesis model grammar over all built-in item types with matching parameters; an independent table of 31 reference positions drives the mutations (each reference renamed, each definition deleted, each parameter removed, unique megacomplexes duplicated, exclusive ones combined): validate / valid / Scheme.validate never raise, every mutation is reported naming the missing label, the unmutated model is valid, fills and evaluates without lookup errors, generated parameters validate; histories on one live model + Parameters object (rename / repair / delete / restore in place between validations, probes in generated order). atheris on the grammar in the thorough tier.",
         note="Positions annotated as plain str (weights datasets, clp targets, compartments) are not treated as references.",
         technique="property-based mutation testing against an independent reference table (Hypothesis, atheris)",
         ref="DESIGN.md section 4 C20",
@@ -142,7 +142,7 @@ CHECKS = {
     ),
     "C07": dict(
         level="exploration",
-        text="Hypothesis-generated oscillation / PFID / artifact / shape parameters (frequencies 0-2000 cm-1, rates of either sign where supported, widths 1e-3..5, shifts, dispersion, 1-3 oscillations, artifact orders 1-3, skewness down to 1e-9, inverted/scaled axes) against 50-digit mpmath closed forms (self-checked against quadrature of the defining convolutions); one proportionality constant per megacomplex type estimated on a canonical case and required everywhere; the effective IRF position is compared with the decay model of the same dataset.",
+        text="Hypothesis-generated oscillation / PFID / artifact / shape parameters (frequencies 0-2000 cm-1, rates of either sign where supported, widths 1e-3..5, shifts, dispersion, 1-3 oscillations, artifact orders 1-3, skewness down to 1e-9, inverted/scaled axes) against 50-digit mpmath closed forms (self-checked against quadrature of the defining convolutions); one proportionality constant per megacomplex type estimated on a canonical case and required everywhere; the effective IRF position is compared with the decay model of the same dataset; whole datasets combining several IRF-using megacomplexes in every list order are evaluated twice on one filled dataset model and compared, label by label, with each megacomplex alone.",
         note="Errors are normalised by the true column scale; beyond 5 sigma the code truncates to zero (5e-6 of the scale allowed there). Frequency folding excluded by construction.",
         technique="property-based testing against high-precision (mpmath) reference formulae",
         ref="DESIGN.md section 4 C07",
